@@ -116,3 +116,97 @@ Proof.
   destruct rest as [|[wlen|e] rest']; cbn; try discriminate.
   destruct (wlen <? rlen); cbn; [discriminate|]. apply IH. cbn [length] in Hf. lia.
 Qed.
+
+(* ------------------------------------------------------------------ *)
+(* loop bounds independent of the supply of answers (C07)              *)
+(* ------------------------------------------------------------------ *)
+(* copy_range_uspace: every iteration moves at least one byte (a zero-byte read is an error), so the loop issues at
+   most two calls per outstanding byte — for ANY answers and ANY fuel *)
+Lemma copy_range_uspace_steps fuel : forall nbytes off w ans,
+  N.of_nat (length (u_trace (copy_range_uspace fuel nbytes off w ans))) <= 2 * (nbytes - w).
+Proof.
+  induction fuel as [|f IH]; intros nbytes off w ans; cbn [copy_range_uspace].
+  - destruct (nbytes <=? w); cbn; lia.
+  - destruct (N.leb_spec nbytes w) as [Hd|Hd]; [cbn; lia|].
+    destruct ans as [|[rlen|e] rest]; cbn [u_trace length]; [lia| |lia].
+    destruct (N.eqb_spec rlen 0) as [->|Hr]; cbn [u_trace length]; [lia|].
+    destruct rest as [|[wlen|e] rest']; cbn [u_trace length]; [lia| |lia].
+    destruct (wlen <? rlen); cbn [u_trace u_app length app]; [lia|].
+    specialize (IH nbytes off (w + rlen) rest'). lia.
+Qed.
+
+(* the same loop WITHOUT the zero-byte arm (a tempting simplification) spins: kept as the reason the arm matters *)
+Fixpoint copy_range_uspace_noguard (fuel : nat) (nbytes off written : N) (ans : list xans) : status :=
+  if nbytes <=? written then StOk else
+  match fuel with
+  | O => StOutOfFuel
+  | S f =>
+      match ans with
+      | XOk rlen :: XOk wlen :: rest' =>
+          if wlen <? rlen then StErr EWRITESHORT else copy_range_uspace_noguard f nbytes off (written + rlen) rest'
+      | _ => StStuck
+      end
+  end.
+Lemma copy_range_uspace_noguard_spins : forall fuel,
+  copy_range_uspace_noguard fuel 1 0 0 (repeat (XOk 0) (2 * fuel)) = StOutOfFuel.
+Proof.
+  induction fuel as [|f IH]; [reflexivity|].
+  replace (2 * S f)%nat with (S (S (2 * f))) by lia. cbn [repeat copy_range_uspace_noguard].
+  change (1 <=? 0) with false. change (0 <? 0) with false. cbn [N.add]. exact IH.
+Qed.
+
+Definition is_eintr (e : ucall * xans) : bool := match snd e with XErr n => n =? EINTR | _ => false end.
+Definition effective (t : utrace) : utrace := filter (fun e => negb (is_eintr e)) t.
+
+(* write_all: apart from EINTR retries, at most n calls for a buffer of n bytes (n >= 1) *)
+Lemma write_all_steps fuel : forall src wpos n ans,
+  N.of_nat (length (effective (u_trace (write_all fuel src wpos n ans)))) <= n.
+Proof.
+  induction fuel as [|f IH]; intros src wpos n ans; cbn [write_all].
+  - destruct (n =? 0); cbn; lia.
+  - destruct (N.eqb_spec n 0) as [->|Hn]; [cbn; lia|].
+    destruct ans as [|[k|e] rest]; [cbn; lia| |].
+    + destruct (N.eqb_spec k 0) as [->|Hk]; [cbn; lia|].
+      cbn [u_trace u_cons]. unfold effective. cbn [filter is_eintr snd negb length].
+      specialize (IH (src + N.min k n) (wpos + N.min k n) (n - k) rest). unfold effective in IH. lia.
+    + destruct (N.eqb_spec e EINTR) as [->|He].
+      * cbn [u_trace u_cons]. unfold effective. cbn [filter is_eintr snd]. rewrite N.eqb_refl. cbn [negb].
+        apply IH.
+      * unfold effective. cbn [u_trace filter is_eintr snd]. apply N.eqb_neq in He. rewrite He. cbn [negb length]. lia.
+Qed.
+
+Lemma effective_app t1 t2 : effective (t1 ++ t2) = effective t1 ++ effective t2.
+Proof. unfold effective. apply filter_app. Qed.
+Lemma effective_cons e t : effective (e :: t) = if is_eintr e then effective t else e :: effective t.
+Proof. unfold effective. cbn [filter]. now destruct (is_eintr e). Qed.
+
+(* copy_bytes_uspace: apart from EINTR retries (which std repeats without bound, like every cp), at most two calls per
+   outstanding byte when the kernel honours the read contract (never more than asked) — for ANY such answers, ANY fuel *)
+Lemma copy_bytes_uspace_steps fuel : forall nbytes rpos wpos w ans,
+  uans_bounded (u_trace (copy_bytes_uspace fuel nbytes rpos wpos w ans)) ->
+  N.of_nat (length (effective (u_trace (copy_bytes_uspace fuel nbytes rpos wpos w ans)))) <= 2 * (nbytes - w).
+Proof.
+  induction fuel as [|f IH]; intros nbytes rpos wpos w ans; cbn [copy_bytes_uspace].
+  - destruct (nbytes <=? w); cbn; lia.
+  - destruct (N.leb_spec nbytes w) as [Hd|Hd]; [cbn; lia|].
+    destruct ans as [|[len|e] rest]; [cbn; lia| |].
+    + destruct (N.eqb_spec len 0) as [->|Hl]; [cbn; lia|].
+      pose proof (write_all_steps (S (length rest)) rpos wpos len rest) as Hw.
+      remember (write_all (S (length rest)) rpos wpos len rest) as wa eqn:Ewa. clear Ewa.
+      destruct (u_st wa) eqn:Ew.
+      * cbn [u_trace u_app]. rewrite <- app_comm_cons. intros Hb. inversion Hb as [|? ? Hk Hb']; subst.
+        apply uans_bounded_app in Hb'. destruct Hb' as [_ Hb2].
+        specialize (IH nbytes (rpos + len) (wpos + len) (w + len) _ Hb2).
+        rewrite effective_cons. cbn [is_eintr snd]. cbn [length].
+        rewrite effective_app, app_length. cbn [fst snd] in Hk. lia.
+      * cbn [u_trace]. intros Hb. inversion Hb as [|? ? Hk Hb']; subst. cbn [fst snd] in Hk.
+        rewrite effective_cons. cbn [is_eintr snd length]. lia.
+      * cbn [u_trace]. intros Hb. inversion Hb as [|? ? Hk Hb']; subst. cbn [fst snd] in Hk.
+        rewrite effective_cons. cbn [is_eintr snd length]. lia.
+      * cbn [u_trace]. intros Hb. inversion Hb as [|? ? Hk Hb']; subst. cbn [fst snd] in Hk.
+        rewrite effective_cons. cbn [is_eintr snd length]. lia.
+    + destruct (N.eqb_spec e EINTR) as [->|He].
+      * cbn [u_trace u_cons]. intros Hb. inversion Hb as [|? ? _ Hb']; subst.
+        unfold effective. cbn [filter is_eintr snd]. rewrite N.eqb_refl. cbn [negb]. apply IH. exact Hb'.
+      * intros _. unfold effective. cbn [u_trace filter is_eintr snd]. apply N.eqb_neq in He. rewrite He. cbn [negb length]. lia.
+Qed.
